@@ -6,7 +6,8 @@ import (
 	"gopkg.in/yaml.v3"
 )
 
-// nodeKinds are the 18 YAML node kinds substituted at every attribute path.
+// nodeKinds are the YAML node kinds substituted at every attribute path: the 18 kinds of the
+// property's quantifier plus three strings that path and interpolation code treats specially.
 var nodeKinds = []struct {
 	Name string
 	Make func() any
@@ -18,6 +19,9 @@ var nodeKinds = []struct {
 	{"string", func() any { return "text" }},
 	{"empty-string", func() any { return "" }},
 	{"kv-string", func() any { return "a=b" }},
+	{"tilde-string", func() any { return "~" }},
+	{"template-string", func() any { return "${FOO}-$$-${UNSET:-d}" }},
+	{"dotdot-string", func() any { return "../.." }},
 	{"empty-list", func() any { return []any{} }},
 	{"list-strings", func() any { return []any{"a", "b"} }},
 	{"list-int", func() any { return []any{1} }},
